@@ -293,6 +293,50 @@ def run_property(prop, cfg, tier, seed, scratch, t0):
                         violations.append((uname + '::' + e['label'], err, 'verus'))
                     nfail += 1
                 discharged += max(max(fr.obligations, 1) - max(nfail, 1), 0)
+    # ---- xrun: executable small-scope checks of the real compiled crates against reference functions (bounded; concrete counterexamples)
+    xrun_rows = []
+    for xs in cfg.get('xrun', []):
+        if tier == 'quick' and xs.get('tier') == 'thorough':
+            continue
+        import xrun_run
+        xr = xrun_run.run_suite(xs['suite'], scratch, tier)
+        cmds.append(xr['cmd'])
+        xrun_rows.append({k: v for k, v in xr.items() if k != 'failures'})
+        if xr['status'] == 'success':
+            bounded.append({'harness': 'xrun::' + xs['suite'], 'bound': xs.get('bound', ''), 'checks': xr['cases'], 'wall_s': xr.get('wall_s'),
+                            'claim': xs.get('claim', ''), 'kind': 'exhaustive execution of the real code over the stated scope against the reference'})
+        elif xr['status'] == 'failed':
+            for fl in xr['failures'][:3]:
+                label = 'xrun::%s::%s' % (xs['suite'], fl['case'])
+                err = {'message': 'xrun: real code disagrees with the reference: ' + fl.get('clause', ''), 'line': None, 'clause': fl.get('clause', ''),
+                       'sites': [{'text': fl.get('detail', ''), 'line': None, 'label': None}], 'resource': False, 'rendered': json.dumps(fl),
+                       'witness': [{'suite': xs['suite'], 'case': fl['case'], 'detail': fl.get('detail', '')}]}
+                k = match_known(known, prop, 'xrun::%s' % xs['suite'], err) or match_known(known, prop, label, err)
+                if k:
+                    known_hits.append((k, label, err))
+                else:
+                    violations.append((label, err, 'xrun'))
+        else:
+            undecided.append('xrun suite %s: %s' % (xs['suite'], xr['status']))
+    # ---- guarded probes: single inputs that may exhaust memory / time, run in a subprocess under limits
+    for pr in cfg.get('probes', []):
+        import xrun_run
+        r = xrun_run.run_probe(pr['name'], scratch)
+        cmds.append(r['cmd'])
+        xrun_rows.append(r)
+        label = 'probe::' + pr['name']
+        if r['status'] == 'returned':
+            bounded.append({'harness': label, 'bound': pr.get('bound', 'one input'), 'checks': 1, 'wall_s': r.get('wall_s'), 'claim': pr.get('claim', '')})
+        elif r['status'].startswith('killed'):
+            err = {'message': 'probe did not return: ' + r['status'], 'line': None, 'clause': pr.get('claim', ''), 'sites': [{'text': pr.get('input', ''), 'line': None, 'label': None}],
+                   'resource': False, 'rendered': json.dumps(r), 'witness': [{'probe': pr['name'], 'input': pr.get('input', ''), 'observed': r['status']}]}
+            k = match_known(known, prop, label, err)
+            if k:
+                known_hits.append((k, label, err))
+            else:
+                violations.append((label, err, 'xrun'))
+        else:
+            undecided.append('probe %s: %s' % (pr['name'], r['status']))
     # ---- Kani harness groups (+ fallback groups: bounded checks of functions whose Verus obligations failed or are undecided on the
     # current text, run to obtain a concrete counterexample on the real compiled code; thorough tier runs them always)
     kani_rows = []
@@ -303,6 +347,10 @@ def run_property(prop, cfg, tier, seed, scratch, t0):
             g = dict(fb['group'])
             g['fallback'] = True
             groups.append(g)
+    if violations and tier == 'quick' and any(b == 'xrun' for _, _, b in violations):
+        # the verdict is already decided by a concrete counterexample on the real code: the (slow) Kani groups would only add to it
+        log('violation with a concrete counterexample found: Kani groups skipped in the quick tier')
+        groups = []
     if groups:
         import kani_run
         for group in groups:
@@ -339,31 +387,6 @@ def run_property(prop, cfg, tier, seed, scratch, t0):
                         undecided.append(msg)
                     else:
                         assumed.append({'fn': 'kani::' + h['name'], 'contract': h.get('claim', ''), 'why': 'harness not run: ' + h['status']})
-    # ---- xrun: executable small-scope checks of the real compiled crates against reference functions (bounded; concrete counterexamples)
-    xrun_rows = []
-    for xs in cfg.get('xrun', []):
-        if tier == 'quick' and xs.get('tier') == 'thorough':
-            continue
-        import xrun_run
-        xr = xrun_run.run_suite(xs['suite'], scratch, tier)
-        cmds.append(xr['cmd'])
-        xrun_rows.append({k: v for k, v in xr.items() if k != 'failures'})
-        if xr['status'] == 'success':
-            bounded.append({'harness': 'xrun::' + xs['suite'], 'bound': xs.get('bound', ''), 'checks': xr['cases'], 'wall_s': xr.get('wall_s'),
-                            'claim': xs.get('claim', ''), 'kind': 'exhaustive execution of the real code over the stated scope against the reference'})
-        elif xr['status'] == 'failed':
-            for fl in xr['failures'][:3]:
-                label = 'xrun::%s::%s' % (xs['suite'], fl['case'])
-                err = {'message': 'xrun: real code disagrees with the reference: ' + fl.get('clause', ''), 'line': None, 'clause': fl.get('clause', ''),
-                       'sites': [{'text': fl.get('detail', ''), 'line': None, 'label': None}], 'resource': False, 'rendered': json.dumps(fl),
-                       'witness': [{'suite': xs['suite'], 'case': fl['case'], 'detail': fl.get('detail', '')}]}
-                k = match_known(known, prop, 'xrun::%s' % xs['suite'], err) or match_known(known, prop, label, err)
-                if k:
-                    known_hits.append((k, label, err))
-                else:
-                    violations.append((label, err, 'xrun'))
-        else:
-            undecided.append('xrun suite %s: %s' % (xs['suite'], xr['status']))
     # ---- extra python checkers (e.g. asm.yml table)
     for extra in cfg.get('extra', []):
         er = extra(scratch, tier)
